@@ -83,7 +83,15 @@ func c19Apply(e *Env, o c19Op) string {
 		return OutOk
 	// ---- storage
 	case "storage.InitProvider":
-		return run(&storagetypes.MsgInitProvider{Creator: a.String(), Ip: fmt.Sprintf("https://p%d.example.com", o.A), Keybase: "kb", TotalSpace: 1_000_000_000_000 + o.N})
+		kb := fmt.Sprintf("kb-of-%d", o.A) // records differ from one another, and some leave the optional fields empty
+		if o.A%2 == 0 {
+			kb = ""
+		}
+		return run(&storagetypes.MsgInitProvider{Creator: a.String(), Ip: fmt.Sprintf("https://p%d.example.com", o.A), Keybase: kb, TotalSpace: 1_000_000_000_000 + o.N})
+	case "storage.AddClaimer":
+		return run(&storagetypes.MsgAddClaimer{Creator: a.String(), ClaimAddress: b.String()})
+	case "rns.Transfer":
+		return run(&rnstypes.MsgTransfer{Creator: a.String(), Name: o.S + ".jkl", Receiver: b.String()})
 	case "storage.BuyStorage":
 		return run(&storagetypes.MsgBuyStorage{Creator: a.String(), ForAddress: a.String(), DurationDays: 30 + o.N%60, Bytes: 1_000_000_000 * (1 + o.N%5), PaymentDenom: "ujkl"})
 	case "storage.PostFile":
@@ -662,6 +670,7 @@ func c19RandomHistory(p *PRNG, k int) c19History {
 	for _, a := range []int{1, 2, 3} {
 		add(c19Op{Op: "storage.InitProvider", A: a, N: p.I64n(1000)})
 	}
+	add(c19Op{Op: "storage.AddClaimer", A: 1, B: 5}) // the first provider in key order carries a claimer and a keybase identity, the next ones do not
 	add(c19Op{Op: "storage.BuyStorage", A: 4, N: p.I64n(100)})
 	add(c19Op{Op: "storage.PostFile", A: 4, N: 1 + p.I64n(50)})
 	add(c19Op{Op: "storage.PostFile", A: 5, B: 1, N: 60 + p.I64n(50)})
@@ -681,6 +690,10 @@ func c19RandomHistory(p *PRNG, k int) c19History {
 	add(c19Op{Op: "rns.List", A: 2, S: c19Name(k), N: p.I64n(1000)})
 	add(c19Op{Op: "rns.Bid", A: 3, S: c19Name(k), N: p.I64n(1000)})
 	add(c19Op{Op: "rns.MakePrimary", A: 2, S: c19Name(k)})
+	// a second name that is listed and then given away: the listing record stays (and must survive a restart as it is)
+	add(c19Op{Op: "rns.Register", A: 2, S: c19Name(k + 7), N: p.I64n(3)})
+	add(c19Op{Op: "rns.List", A: 2, S: c19Name(k + 7), N: p.I64n(1000)})
+	add(c19Op{Op: "rns.Transfer", A: 2, B: 4, S: c19Name(k + 7)})
 	add(c19Op{Op: "rns.SetWhois", A: 1, N: p.I64n(10)})
 	add(c19Op{Op: "filetree.PostKey", A: 1, N: p.I64n(100)})
 	add(c19Op{Op: "filetree.MakeRoot", A: 1, N: p.I64n(100)})
